@@ -70,3 +70,29 @@ Proof.
        res_previous_counterparty_commit_info res_channel_closed res_initial_holder_value res_counterparty_secrets];
     reflexivity.
 Qed.
+
+(** the look-ups behind the retry rules: [num + 2] is evaluated only when [num + 1] is not the
+    next number (the model's callers compute both with the same profile-dependent additions) *)
+Theorem gen_prev_point_is_model prof fr e num :
+  num + 2 <= U64MAX ->
+  gen_get_previous_counterparty_point prof (to_res fr e) num = Val (prev_point_for e (num + 1) (num + 2)).
+Proof.
+  intros H. unfold gen_get_previous_counterparty_point, prev_point_for.
+  cbn [to_res res_next_counterparty_commit_num res_current_counterparty_point res_previous_counterparty_point].
+  rewrite (add_p_ok prof num 1) by lia. cbn [bindT].
+  destruct (num + 1 =? next_c e); [reflexivity|].
+  rewrite (add_p_ok prof num 2) by lia. cbn [bindT].
+  destruct (num + 2 =? next_c e); reflexivity.
+Qed.
+
+Theorem gen_prev_info_is_model prof fr e num :
+  num + 2 <= U64MAX ->
+  gen_get_previous_counterparty_commit_info prof (to_res fr e) num = Val (prev_info_for e (num + 1) (num + 2)).
+Proof.
+  intros H. unfold gen_get_previous_counterparty_commit_info, prev_info_for.
+  cbn [to_res res_next_counterparty_commit_num res_current_counterparty_commit_info res_previous_counterparty_commit_info].
+  rewrite (add_p_ok prof num 1) by lia. cbn [bindT].
+  destruct (num + 1 =? next_c e); [reflexivity|].
+  rewrite (add_p_ok prof num 2) by lia. cbn [bindT].
+  destruct (num + 2 =? next_c e); reflexivity.
+Qed.
